@@ -131,6 +131,9 @@ func c15Outcomes() []c15Outcome {
 				g = fmt.Sprintf("throttle:%v", d) // RESOURCE_EXHAUSTED is retryable only when the server signals recovery with RetryInfo
 			}
 			out = append(out, c15Outcome{fmt.Sprintf("%v/retry-delay=%v", c, d), st.Err(), g, c15HTTPClass(c, d)})
+			// the same status inside a permanent error (what an OTLP exporter returns for a non-retryable reply in a
+			// collector-to-collector chain): "a consumer error carrying an explicit gRPC status is reported with that status"
+			out = append(out, c15Outcome{fmt.Sprintf("permanent+%v/retry-delay=%v", c, d), consumererror.NewPermanent(st.Err()), g, c15HTTPClass(c, d)})
 		}
 	}
 	return out
